@@ -243,7 +243,7 @@ def coupling(rng):
     return [str(f1), rng.choice(NUMS), rng.choice(NUMS[:6]), str(f2), rng.choice(NUMS), rng.choice(NUMS[:6])]
 
 
-def gen_amp_doc(rng: random.Random, n_lines=None, partial=True, cartesian=None, params=True):
+def gen_amp_doc(rng: random.Random, n_lines=None, partial=True, cartesian=None, params=True, min_alts=0):
     """a D0 -> K- pi+ pi+ pi- option document: full and partial lines (nested to depth 3), 0..3 alternatives per resonance"""
     ev = ["D0", "K-", "pi+", "pi+", "pi-"]
     if rng.random() < 0.3:
@@ -268,14 +268,14 @@ def gen_amp_doc(rng: random.Random, n_lines=None, partial=True, cartesian=None, 
             d2 = ["D", v2, None, None, []] if part2 else two_body(rng, v2)
             for nm, p in ((v1, part1), (v2, part2)):
                 if p:
-                    sublines.setdefault(nm, rng.randint(0, 3))
+                    sublines.setdefault(nm, rng.randint(min_alts, 3))
             ds = [d1, d2] if rng.random() < 0.7 else [d2, d1]
             doc.append(["line", ["D", "D0", spin, None, ds]] + coupling(rng))
         else:
             r3 = rng.choice(list(CASCADE))
             if kind == "cascade-partial":
                 doc.append(["line", ["D", "D0", None, None, [["D", r3, None, None, []], ["D", BACHELOR[r3], None, None, []]]]] + coupling(rng))
-                sublines.setdefault(r3, rng.randint(0, 3))
+                sublines.setdefault(r3, rng.randint(min_alts, 3))
             else:
                 r2, b = rng.choice(CASCADE[r3])
                 wave = rng.choice([None, None, "D"]) if r3 in ("K(1)(1270)bar-", "a(1)(1260)+") else None
@@ -289,7 +289,7 @@ def gen_amp_doc(rng: random.Random, n_lines=None, partial=True, cartesian=None, 
                 doc.append(["line", two_body(rng, nm)] + coupling(rng))
             else:
                 r2, b = rng.choice(CASCADE[nm])
-                part = partial and r2 in LS_TAGS and rng.random() < 0.3
+                part = partial and min_alts == 0 and r2 in LS_TAGS and rng.random() < 0.3
                 d2 = ["D", r2, None, None, []] if part else two_body(rng, r2)
                 if part and r2 not in sublines:
                     pass
@@ -308,3 +308,83 @@ def gen_amp_doc(rng: random.Random, n_lines=None, partial=True, cartesian=None, 
     if rng.random() < 0.2:
         return rest[: len(rest) // 2] + head + rest[len(rest) // 2:], ev
     return head + rest, ev
+
+
+def gen_emit_doc(rng, families=True):
+    """amplitudes over the supported spin structures, both topologies, four lineshape kinds, identical resonances"""
+    ev = ["D0"] + (["K-", "pi+", "pi+", "pi-"] if rng.random() < 0.5 else rng.choice([["pi+", "pi-", "pi+", "pi-"], ["pi+", "pi+", "pi-", "pi-"], ["pi-", "K-", "pi+", "pi+"], ["K+", "K-", "pi+", "pi-"]]))
+    kpi = "K-" in ev and "K+" not in ev
+    doc = [["event_type", ev]]
+    lines = []
+    for _ in range(rng.randint(1, 4)):
+        kind = rng.choice(["VV", "VV-same", "VS", "SS", "AVP", "ASP", "TVP", "PVP", "PSP"])
+        if kpi:
+            V1, S1 = "K*(892)bar0", "KPi00"
+            casc = {"AVP": ("K(1)(1270)bar-", "K*(892)bar0", "pi-", "pi+"), "ASP": ("K(1)(1270)bar-", "KPi00", "pi-", "pi+"),
+                    "TVP": ("K(2)*(1430)bar-", "K*(892)bar0", "pi-", "pi+"), "PVP": ("K(1460)bar-", "K*(892)bar0", "pi-", "pi+"),
+                    "PSP": ("K(1460)bar-", "PiPi10", "K-", "pi+")}
+            if kind == "VV-same":
+                kind = "VV"
+        else:
+            V1, S1 = "rho(770)0", "PiPi00"
+            casc = {"AVP": ("a(1)(1260)+", "rho(770)0", "pi+", "pi-"), "ASP": ("a(1)(1260)+", "PiPi20", "pi+", "pi-")}
+            if kind in ("TVP", "PVP", "PSP"):
+                kind = "AVP"
+            if "K+" in ev:
+                kind = rng.choice(["VV", "VS"])
+        if kind in ("VV", "VV-same", "VS", "SS"):
+            if "K+" in ev:
+                a, b = "phi(1020)0", rng.choice(["rho(770)0", "PiPi00"] if kind != "VV" else ["rho(770)0", "omega(782)0"])
+            else:
+                a = V1 if kind in ("VV", "VV-same", "VS") else S1
+                if kind == "VV-same":
+                    b = a if not kpi else "rho(770)0"
+                else:
+                    b = rng.choice(["rho(770)0", "rho(1450)0", "omega(782)0"]) if kind == "VV" else rng.choice(["PiPi00", "PiPi10"])
+            spin = rng.choice([None, "S", "P", "D"]) if kind.startswith("VV") else None
+            ds = [two_body(rng, a), two_body(rng, b)]
+            if rng.random() < 0.3 and kind != "VS":     # (scalar, vector) in this order is not a supported spin structure
+                ds.reverse()
+            lines.append(["line", ["D", "D0", spin, None, ds]] + coupling(rng))
+        else:
+            r3, r2, b3, b4 = casc[kind]
+            wave = rng.choice([None, "D"]) if kind == "AVP" else None
+            ls3 = rng.choice([None, "GSpline.EFF"]) if r3 in ("K(1)(1270)bar-", "a(1)(1260)+", "K(1460)bar-") else None
+            inner = ["D", r3, wave, ls3, [two_body(rng, r2), ["D", b3, None, None, []]]]
+            lines.append(["line", ["D", "D0", None, None, [inner, ["D", b4, None, None, []]]]] + coupling(rng))
+    doc += lines
+    if families:
+        doc += required_families(doc, rng)
+    return doc, ev
+
+
+def required_families(doc, rng):
+    """the parameter and constant lines the lineshapes of the document need (the premise of C19)"""
+    out = []
+    tags = set()
+    spl = set()
+
+    def walk(d):
+        if d[3]:
+            tags.add(d[3])
+            if d[3] == "GSpline.EFF":
+                spl.add(d[1])
+        for x in d[4]:
+            walk(x)
+
+    for st in doc:
+        if st[0] == "line":
+            walk(st[1])
+    for nm in sorted(spl):
+        out += [["constant", f"{nm}::Spline::Min", "0.6"], ["constant", f"{nm}::Spline::Max", "3"], ["constant", f"{nm}::Spline::N", "4"]]
+        out += [["variable", f"{nm}::Spline::Gamma::{k}", rng.choice(["2", "0"]), rng.choice(["1.0", "0.5"]), rng.choice(["0", "0.1"])] for k in range(3)]
+    if any(t.startswith("kMatrix") for t in tags):
+        for n in ("sA0", "sA", "s0_prod", "s0_scatt"):      # programmatic_name("sA0") is the symbol sA_0 the lineshape uses
+            out.append(["variable", n, "2", rng.choice(["-0.15", "1", "-0.07"]), "0"])
+        out += [["variable", f"f_scatt{k}", "2", "0.1", "0"] for k in range(3)]
+        for i_ in (1, 2):
+            for nm in ("pipi", "KK", "4pi", "EtaEta", "EtapEta", "mass"):
+                out.append(["variable", f"IS_p{i_}_{nm}", "2", rng.choice(["0.22889", "-0.55377", "0"]), "0"])
+    return out
+
+
